@@ -454,14 +454,20 @@ def walk_curve(connection, kind, reference_level=None, rng=None, cache=None):
     # ---- C09 origin
     if avg:
         origin_level = reference_level if reference_level is not None else max(avg)
+        tol0 = 1e-6 if kind == 'recession' else 1e-9
+        tol0 += 1e-12 * scale_all
         if origin_level not in avg:
             findings.append(('C09', kind + '-reference-level-absent-from-curve', {'level': origin_level}))
+        elif abs(avg[origin_level]) > tol0:
+            findings.append(('C09', kind + '-master-curve-not-zero-at-origin-level',
+                             {'level': origin_level, 'value': avg[origin_level], 'reference_given': reference_level is not None}))
         else:
-            tol0 = 1e-6 if kind == 'recession' else 1e-9
-            tol0 += 1e-12 * scale_all
-            if abs(avg[origin_level]) > tol0:
-                findings.append(('C09', kind + '-master-curve-not-zero-at-origin-level',
-                                 {'level': origin_level, 'value': avg[origin_level], 'reference_given': reference_level is not None}))
+            # the master curve the user sees is the view: it must show that level, with value 0,
+            # and (without a reference) no higher level
+            vkey = origin_level * gs
+            if vkey not in view or abs(view[vkey]) > tol0 or (reference_level is None and view and max(view) != vkey):
+                findings.append(('C09', kind + '-master-curve-view-not-zero-at-origin-level',
+                                 {'level': origin_level, 'zeta_mm': vkey, 'view_value': view.get(vkey), 'highest_view_level_mm': max(view) if view else None}))
             else:
                 hit('origin-checked')
     stats['levels'] = sorted(avg)
